@@ -538,17 +538,33 @@ def _hist_quick(cases):
     return out
 
 
+def _hist_three(cases):
+    """Three-call histories beyond TLC's list (like the timed ones): a genuine call, then a quote of the same platform whose embedded chain
+    is another PKI's (same names, same leaf key: the QE report and its signature are the genuine ones) in a call that fails while
+    fetching collateral, then that quote again without collateral -- whatever the second call left half-done must not help the third."""
+    b = verifyfam.baseline()
+    w = dict(b, leafPki="B", interPki="B", rootPki="B", tcbHdr="missing")
+    other = dict(b, modBranch="modOk", sharedSigner="shared")
+    out = []
+    for e1, e2 in (("raw", "msg"), ("msg", "raw"), ("msg", "msg"), ("raw", "raw")):
+        for shared in (True, False):
+            out.append(dict(fault=w, shared=shared, mid="none", worlds=dict(T=b, W=w, B=other),
+                            hist=[dict(wid="T", gc=False, cr=False, entry=e1), dict(wid="W", gc=True, cr=False, entry=e2), dict(wid="W", gc=False, cr=False, entry=e2)]))
+    return cases + out
+
+
 def _hist_cases(cases, tier):
     if tier != "thorough":
         cases = _hist_quick(cases)
     # one timed history beyond TLC's list: wall-clock time set, the leaf expires between the two calls (shared and fresh Options)
+    cases = _hist_three(cases)
     # (and the same with a first call that fails while fetching collateral: nothing of it may stay behind either)
     return cases + [dict(timed=True, shared=True, fault={}, hist=[]), dict(timed=True, shared=False, fault={}, hist=[]),
                     dict(timed=True, shared=True, firstFails=True, fault={}, hist=[]), dict(timed=True, shared=False, firstFails=True, fault={}, hist=[])]
 
 
 def _hist_run(prop, tier, dims=None):
-    return smallfam.run(prop, tier, part=True, case_fn=_hist_cases if (dims is None or prop == "C06") else (lambda cases, t: cases if t == "thorough" else _hist_quick(cases)), mc_module="VerifyHistory_MC", mc_cfg=_hist_cfg(tier, dims, pairs=prop in ("C02", "C12")), driver="history", trace_module="TdxVerify_Judge", trace_spec="JSpec",
+    return smallfam.run(prop, tier, part=True, case_fn=_hist_cases if (dims is None or prop == "C06") else (lambda cases, t: (cases if t == "thorough" else _hist_quick(cases)) if prop != "C01" else _hist_three(cases if t == "thorough" else _hist_quick(cases))), mc_module="VerifyHistory_MC", mc_cfg=_hist_cfg(tier, dims, pairs=prop in ("C02", "C12")), driver="history", trace_module="TdxVerify_Judge", trace_spec="JSpec",
                         trace_consts=HIST_TRACE_CONSTS, key_fn=_key_hist, required_actions=("Call",), max_events=24000,
                         assumptions=["worlds of one history share a seed: named keys, certificates and deterministic signatures coincide byte for byte, so a cache or left-over state keyed on shared material would be hit"],
                         rule="every history (first call on the honest twin or on another honest platform, second call on any of the three worlds, all option levels, shared or fresh Options) is run in one process; every call is judged by the single-call properties")
